@@ -1,6 +1,8 @@
 // minimize.cc — greedy / ddmin shrinking of a recorded single-client case
 // (C16, C17) restricted to the original violation class (same oracle id, same
 // function).  Bounded number of re-executions.  DESIGN.md §2.7.
+#include <time.h>
+
 #include <algorithm>
 
 #include "runner.h"
@@ -11,8 +13,11 @@ struct Shrinker {
     int budget = 600;
     int execs = 0;
 
+    time_t tStart = time(nullptr);
     std::vector<Verdict> verdicts(const Case &c, std::string &note) {
         execs++;
+        // wall-clock only bounds how far the replay file is shrunk, never a verdict
+        if (time(nullptr) - tStart > 45) budget = 0;
         return prop == "C16" ? replayCaseC16(c, note) : replayCaseC17(c, note);
     }
     bool same(const Case &c, std::string *detail = nullptr) {
